@@ -268,11 +268,41 @@ def corruption_catalogue(h5, rng):
         out.append((f"missing[{s}:{k}]", {f"{s}:{k}"}, c_del,
                     rf"Missing key \[{s}\] '{re.escape(k)}'"))
     if "index" in ev and n > 1:
-        def c_index(h):
+        # ways in which the index fails to enumerate 1..N; several keep the first and the last
+        # entry and the length (only the inner part is wrong)
+        kind_i = str(rng.choice(["shift", "reverse", "swap_inner", "one_inner_wrong",
+                                 "shuffle_inner", "duplicate_inner", "zero_based"]))
+        if n < 5 and kind_i in ("swap_inner", "one_inner_wrong", "shuffle_inner",
+                                "duplicate_inner"):
+            kind_i = "shift"
+
+        def c_index(h, kind_i=kind_i, seed_i=int(rng.integers(0, 2 ** 31))):
+            r_ = np.random.default_rng(seed_i)
             d = h["events"]["index"][:]
-            d[-1] = d[0]
+            m_ = len(d)
+            if kind_i == "shift":
+                d = d + 1
+            elif kind_i == "reverse":
+                d = d[::-1].copy()
+            elif kind_i == "zero_based":
+                d = d - 1
+            elif kind_i == "swap_inner":
+                a_ = int(r_.integers(1, m_ - 2))
+                d[a_], d[a_ + 1] = d[a_ + 1], d[a_]
+            elif kind_i == "one_inner_wrong":
+                a_ = int(r_.integers(1, m_ - 1))
+                d[a_] = d[a_] + m_ + 3
+            elif kind_i == "shuffle_inner":
+                inner = d[1:-1].copy()
+                while np.array_equal(inner, d[1:-1]):
+                    r_.shuffle(inner)
+                d[1:-1] = inner
+            else:
+                a_ = int(r_.integers(1, m_ - 1))
+                d[a_] = d[a_ - 1]
             h["events"]["index"][:] = d
-        out.append(("index", {"events/index"}, c_index, r"index feature is not enumerated"))
+        out.append((f"index[{kind_i}]", {"events/index"}, c_index,
+                    r"index feature is not enumerated"))
     if "fluorescence:channel count" in h5.attrs:
         def c_chc(h):
             h.attrs["fluorescence:channel count"] = int(h.attrs["fluorescence:channel count"]) + 1
